@@ -2729,34 +2729,54 @@ func creatingGetters(p *engine.Prog) map[*ssa.Function]bool {
 // dropped: a checkpoint taken before ValidateTx (same iteration) is handed to the revert on the edge on
 // which ValidateTx refused.
 func builderRevertsRejected(p *engine.Prog, r *engine.Report) (bool, string) {
-	f, err := p.Func("blockchain", "Blockchain.filterTxs")
+	root, err := p.Func("blockchain", "Blockchain.filterTxs")
 	if err != nil {
 		return false, ""
 	}
-	for _, c := range callsTo(f, "blockchain/validation.ValidateTx") {
-		vc, ok := c.(*ssa.Call)
-		if !ok {
-			continue
-		}
-		for _, g := range nilErrGuards(f, vc) {
-			if g.If == nil {
-				continue
-			}
-			fe := g.FailEdge()
-			fail := fe.From.Succs[fe.Succ]
-			for _, rc := range engine.Calls(f) {
-				if !engine.CallNameIs(rc, "RevertCreatedIdentities") || !(rc.Block() == fail || fail.Dominates(rc.Block())) {
-					continue
-				}
-				args := rc.Common().Args
-				cp, isC := engine.Origin(args[len(args)-1]).(*ssa.Call)
-				if isC && engine.CallNameIs(cp, "CheckpointIdentities") && engine.InstrDominates(cp, vc) && enclosingLoopHeader(cp.Block()) == enclosingLoopHeader(vc.Block()) {
-					return true, p.InstrPos(rc)
-				}
+	// filterTxs and the same-package functions it calls (the validation step extracted into a helper)
+	cands := []*ssa.Function{root}
+	seen := map[*ssa.Function]bool{root: true}
+	for i := 0; i < len(cands) && i < 40; i++ {
+		for _, c := range engine.Calls(cands[i]) {
+			if h := c.Common().StaticCallee(); h != nil && h.Blocks != nil && h.Pkg == root.Pkg && !seen[h] && len(cands) < 40 {
+				seen[h] = true
+				cands = append(cands, h)
 			}
 		}
 	}
-	return false, ""
+	found, all, pos := false, true, ""
+	for _, f := range cands {
+		for _, c := range callsTo(f, "blockchain/validation.ValidateTx") {
+			vc, ok := c.(*ssa.Call)
+			if !ok {
+				continue
+			}
+			found = true
+			good := false
+			for _, g := range nilErrGuards(f, vc) {
+				if g.If == nil {
+					continue
+				}
+				fe := g.FailEdge()
+				fail := fe.From.Succs[fe.Succ]
+				for _, rc := range engine.Calls(f) {
+					if !engine.CallNameIs(rc, "RevertCreatedIdentities") || !(rc.Block() == fail || fail.Dominates(rc.Block())) {
+						continue
+					}
+					args := rc.Common().Args
+					cp, isC := engine.Origin(args[len(args)-1]).(*ssa.Call)
+					if isC && engine.CallNameIs(cp, "CheckpointIdentities") && engine.InstrDominates(cp, vc) && enclosingLoopHeader(cp.Block()) == enclosingLoopHeader(vc.Block()) {
+						good = true
+						pos = p.InstrPos(rc)
+					}
+				}
+			}
+			if !good {
+				all = false
+			}
+		}
+	}
+	return found && all, pos
 }
 
 func validatorsReadWithoutCreatingRule(p *engine.Prog, r *engine.Report, rule string) {
